@@ -767,6 +767,9 @@ func init() {
 			ex := errx.Run(def, core.Pkgs("./graph/formats/...", "./graph/encoding/...", "./stat/card", "./mathext/prng"))
 			ex.Floor("error_definitions", 60)
 			res.Merge(ex)
+			sq := decode.RunSquare(def, "./graph/encoding/graph6", "./graph/encoding/digraph6")
+			sq.Floor("products_of_the_decoded_node_count", 1)
+			res.Merge(sq)
 			rv := decode.RunRevive(def, core.Pkgs("./graph/formats/...", "./graph/encoding/...", "./stat/card", "./mathext/prng"))
 			rv.Floor("fields_retired_with_nil", 1)
 			res.Merge(rv)
@@ -967,6 +970,8 @@ func dump(argv []string) {
 		res = loopidx.RunContinueSkip(def, core.Pkgs(argv[1:]...))
 	case "sentinelidx":
 		res = flagx.RunSentinelIndex(def, core.Pkgs(argv[1:]...))
+	case "decodesquare":
+		res = decode.RunSquare(def, argv[1:]...)
 	case "workquery":
 		res = flagx.RunWorkQuery(def, core.Pkgs(argv[1:]...))
 	case "betascale":
